@@ -46,6 +46,15 @@ func vfSecDur(v float64) map[string]any {
 	return vfDur(time.Duration(math.Round(v * 1e9)))
 }
 
+// vfWhole is v as an integer; a value that is not a whole number (no gauge here ever is one) becomes a value nothing
+// in the specification can equal.
+func vfWhole(v float64) int {
+	if v != math.Trunc(v) {
+		return -1000003
+	}
+	return int(v)
+}
+
 var vfObsEpoch = time.Date(2026, 1, 1, 0, 0, 0, 0, time.UTC)
 
 type vfObsState struct {
@@ -180,7 +189,7 @@ func vfObserve(v map[string]any) (res map[string]any) {
 				val = m.GetCounter().GetValue()
 			}
 			s := map[string]any{"name": name, "ifi": lab["interface"], "h": []any{}, "bits": 0, "hs": []any{}, "names": []any{}, "details": lab["details"],
-				"flag": int(val), "d": vfSecDur(0)}
+				"flag": vfWhole(val), "d": vfSecDur(0)}
 			if strings.HasSuffix(name, "_seconds") {
 				s["d"] = vfSecDur(val)
 				s["flag"] = 0
